@@ -1286,3 +1286,33 @@ func constantFloat(c *ssa.Const) (float64, bool) {
 	}
 	return 0, false
 }
+
+// mapHasCall: v is a call of a tiny membership method/function `has(m, k) bool { _, ok := m[k]; return ok }`;
+// returns the map and key operands at the call site.
+func (m *Module) mapHasCall(v ssa.Value) (ssa.Value, ssa.Value, bool) {
+	call, ok := v.(*ssa.Call)
+	if !ok || len(call.Call.Args) != 2 {
+		return nil, nil, false
+	}
+	g := m.callee(call.Common())
+	if g == nil || len(g.Blocks) == 0 || len(g.Params) != 2 || g.Signature.Results().Len() != 1 {
+		return nil, nil, false
+	}
+	rets := returnsOf(g)
+	for _, r := range rets {
+		for _, rv := range returnValues(r, 0) {
+			ex, ok := rv.(*ssa.Extract)
+			if !ok || ex.Index != 1 {
+				return nil, nil, false
+			}
+			lk, ok := ex.Tuple.(*ssa.Lookup)
+			if !ok || !lk.CommaOk || lk.X != ssa.Value(g.Params[0]) || lk.Index != ssa.Value(g.Params[1]) {
+				return nil, nil, false
+			}
+		}
+	}
+	if len(rets) == 0 {
+		return nil, nil, false
+	}
+	return call.Call.Args[0], call.Call.Args[1], true
+}
